@@ -1,51 +1,670 @@
+// C15 harness: runs the gojq COMMAND (in-process through the hook cli.VerifRun, or the built
+// cmd/gojq binary) on generated (options, query, stdin) cases and, in the same process, asks the
+// LIBRARY (gojq.Parse / Compile / Run, encoding/json for the input stream) what it yields for the
+// same inputs.  One s-expression line per case (format: coq/c15/Run.v).  The verdict is computed by
+// the extracted model, never here.
 package main
 
 import (
 	"bytes"
+	"encoding/hex"
+	"encoding/json"
 	"fmt"
+	"io"
+	"os"
+	"os/exec"
+	"strconv"
 	"strings"
+	. "verifharness/hlib"
 
 	"github.com/itchyny/gojq"
 	"github.com/itchyny/gojq/cli"
 )
 
 func main() {
-	for _, src := range []string{`1, error("x"), 2, halt, 3, ("bye"|halt_error), 4, ({a:1}|halt_error(300)), error(null), 5, (null|halt_error), 6, (1|keys), 7`,
-		`try error("x") catch .`, `label $f | 1, break $f`, `error(null)`, `[.[]|error(null)?]`, `halt_error(-1)`, `halt_error(1.7)`, `halt_error("a")`} {
-		q, err := gojq.Parse(src)
-		if err != nil {
-			fmt.Println("parse", err)
-			continue
+	Register("c15", runC15)
+	Register("c15replay", runC15Replay)
+	Main()
+}
+
+type optset struct {
+	r, r0, j, c, tab bool
+	indent           int // -1000 = not given
+	e, n, s          bool
+}
+
+const noIndent = -1000
+
+func bit(b bool) string {
+	if b {
+		return "1"
+	}
+	return "0"
+}
+
+func (o optset) sexp() string {
+	ind := "-"
+	if o.indent != noIndent && o.indent >= 0 {
+		ind = strconv.Itoa(o.indent)
+	}
+	return fmt.Sprintf("(o %s %s %s %s %s %s %s %s %s)", bit(o.r), bit(o.r0), bit(o.j), bit(o.c), bit(o.tab), ind, bit(o.e), bit(o.n), bit(o.s))
+}
+
+// args spells the option set as command-line flags (long/short/clustered forms chosen by rng)
+func (o optset) args(r *Rng) []string {
+	var units [][]string
+	short := ""
+	add := func(on bool, s, l string) {
+		if !on {
+			return
 		}
-		c, err := gojq.Compile(q)
-		if err != nil {
-			fmt.Println("compile", err)
-			continue
+		switch {
+		case s != "" && r.Chance(1, 3):
+			short += s
+		case s != "" && r.Chance(1, 2):
+			units = append(units, []string{"-" + s})
+		default:
+			units = append(units, []string{"--" + l})
 		}
-		it := c.Run(nil)
-		for i := 0; i < 30; i++ {
-			v, ok := it.Next()
-			if !ok {
+	}
+	add(o.r, "r", "raw-output")
+	add(o.r0, "", "raw-output0")
+	add(o.j, "j", "join-output")
+	add(o.c, "c", "compact-output")
+	add(o.tab, "", "tab")
+	add(o.e, "e", "exit-status")
+	add(o.n, "n", "null-input")
+	add(o.s, "s", "slurp")
+	if o.indent != noIndent {
+		if r.Chance(1, 2) {
+			units = append(units, []string{"--indent", strconv.Itoa(o.indent)})
+		} else {
+			units = append(units, []string{"--indent=" + strconv.Itoa(o.indent)})
+		}
+	}
+	if short != "" {
+		units = append(units, []string{"-" + short})
+	}
+	for i := len(units) - 1; i > 0; i-- {
+		k := r.Intn(i + 1)
+		units[i], units[k] = units[k], units[i]
+	}
+	var a []string
+	for _, u := range units {
+		a = append(a, u...)
+	}
+	return a
+}
+
+// ---------------------------------------------------------------------------------------------
+// what the library yields
+
+func valueSexp(v any) string {
+	bs, err := gojq.Marshal(v)
+	if err != nil {
+		return "(badvalue)"
+	}
+	switch x := v.(type) {
+	case nil:
+		return "(v n " + Hexs(bs) + ")"
+	case bool:
+		if !x {
+			return "(v f " + Hexs(bs) + ")"
+		}
+	case string:
+		return "(v s " + Hexs([]byte(x)) + " " + Hexs(bs) + ")"
+	}
+	return "(v o " + Hexs(bs) + ")"
+}
+
+type libInfo struct {
+	pre      string
+	ins      []string // "inerr" | "(run ...)"
+	errCodes []int    // exit codes of non-halt errors that carry one
+	nHalt    int
+	nErr     int
+	nVal     int
+}
+
+// outcomes of one run of the library, collected the way any consumer of the iterator sees them;
+// after the first error we look at (at most) two more items to show that the command ignores them
+func libOutcomes(code *gojq.Code, v any, argvalues []any, li *libInfo) (s string) {
+	var b strings.Builder
+	b.WriteString("(run")
+	defer func() {
+		if r := recover(); r != nil {
+			// the library panicked while being driven past an error: keep what we have
+			b.WriteString(")")
+			s = b.String()
+		}
+	}()
+	it := code.Run(v, argvalues...)
+	after := -1
+	for i := 0; i < 64; i++ {
+		if after >= 0 {
+			if after++; after > 2 {
 				break
 			}
-			if e, ok := v.(error); ok {
-				ec, has := e.(interface{ ExitCode() int })
-				code := -999
-				if has {
-					code = ec.ExitCode()
-				}
-				_, isHalt := e.(*gojq.HaltError)
-				fmt.Printf("  err %q has=%v code=%d halt=%v\n", e.Error(), has, code, isHalt)
-			} else {
-				fmt.Printf("  val %v\n", v)
+		}
+		x, ok := it.Next()
+		if !ok {
+			break
+		}
+		if e, ok := x.(error); ok {
+			if after < 0 {
+				after = 0
+			}
+			if he, ok := e.(*gojq.HaltError); ok {
+				li.nHalt++
+				fmt.Fprintf(&b, " (h %s %d)", valueSexp(he.Value()), he.ExitCode())
+				continue
+			}
+			li.nErr++
+			code := "-"
+			if ec, ok := e.(interface{ ExitCode() int }); ok {
+				code = strconv.Itoa(ec.ExitCode())
+				li.errCodes = append(li.errCodes, ec.ExitCode())
+			}
+			fmt.Fprintf(&b, " (e %s %s)", code, Hexs([]byte(e.Error())))
+			continue
+		}
+		li.nVal++
+		b.WriteString(" " + valueSexp(x))
+	}
+	b.WriteString(")")
+	return b.String()
+}
+
+func decodeStream(stdin string) (docs []any, bad bool) {
+	dec := json.NewDecoder(strings.NewReader(stdin))
+	dec.UseNumber()
+	for {
+		var v any
+		if err := dec.Decode(&v); err != nil {
+			return docs, err != io.EOF
+		}
+		docs = append(docs, v)
+	}
+}
+
+func libRun(o optset, query string, stdin string, forcePre string) (li libInfo, ndocs int, tail bool) {
+	docs, bad := decodeStream(stdin)
+	ndocs, tail = len(docs), bad
+	li.pre = forcePre
+	if li.pre != "" {
+		return
+	}
+	if o.indent != noIndent && (o.indent > 9 || o.indent < 0) {
+		li.pre = "opterr"
+		return
+	}
+	q, err := gojq.Parse(strings.TrimSpace(query))
+	if err != nil {
+		li.pre = "parseerr"
+		return
+	}
+	argvalues := []any{map[string]any{"named": map[string]any{}, "positional": []any{}}}
+	code, err := gojq.Compile(q, gojq.WithEnvironLoader(os.Environ), gojq.WithVariables([]string{"$ARGS"}))
+	if err != nil {
+		li.pre = "compileerr"
+		return
+	}
+	li.pre = "ready"
+	switch {
+	case o.n:
+		li.ins = append(li.ins, libOutcomes(code, nil, argvalues, &li))
+	case o.s:
+		if bad {
+			li.ins = append(li.ins, "inerr")
+		} else {
+			if docs == nil {
+				docs = []any{}
+			}
+			li.ins = append(li.ins, libOutcomes(code, docs, argvalues, &li))
+		}
+	default:
+		for _, d := range docs {
+			li.ins = append(li.ins, libOutcomes(code, d, argvalues, &li))
+		}
+		if bad {
+			li.ins = append(li.ins, "inerr")
+		}
+	}
+	return
+}
+
+// ---------------------------------------------------------------------------------------------
+// running the command
+
+var gojqBin string
+
+func runImpl(mode string, args []string, stdin string) (out, errb []byte, status int, err error) {
+	var o, e bytes.Buffer
+	if mode == "os" {
+		cmd := exec.Command(gojqBin, args...)
+		cmd.Stdin = strings.NewReader(stdin)
+		cmd.Stdout, cmd.Stderr = &o, &e
+		cmd.Env = append(os.Environ(), "NO_COLOR=1")
+		rerr := cmd.Run()
+		status = 0
+		if rerr != nil {
+			ee, ok := rerr.(*exec.ExitError)
+			if !ok {
+				return nil, nil, 0, rerr
+			}
+			status = ee.ExitCode()
+		}
+		return o.Bytes(), e.Bytes(), status, nil
+	}
+	status = cli.VerifRun(args, strings.NewReader(stdin), &o, &e)
+	return o.Bytes(), e.Bytes(), status, nil
+}
+
+type cmdDesc struct {
+	Args  []string `json:"args"`
+	Stdin string   `json:"stdin"`
+	Mode  string   `json:"mode"`
+	Pre   string   `json:"force_pre,omitempty"`
+}
+
+func emitCase(c *Ctx, mode string, o optset, args []string, query string, stdin string, forcePre string) {
+	li, ndocs, tail := libRun(o, query, stdin, forcePre)
+	out, errb, status, err := runImpl(mode, args, stdin)
+	if err != nil {
+		c.Violation("cannot run the command: %v", err)
+		return
+	}
+	desc, _ := json.Marshal(cmdDesc{Args: args, Stdin: stdin, Mode: mode, Pre: forcePre})
+	c.Emit("(case %s %s (st %d %s) (ins%s) (impl %s %s %d %s))", o.sexp(), li.pre, ndocs, bit(tail),
+		prefixEach(li.ins), mode, Hexs(out), status, Hexs(errb))
+	cmdsLine(desc)
+	c.Count("pre:" + li.pre)
+	c.Count("mode:" + mode)
+	if li.pre == "ready" {
+		c.Count(fmt.Sprintf("inputs:%d", len(li.ins)))
+		if li.nHalt > 0 {
+			c.Count("with-halt")
+		}
+		if li.nErr > 0 {
+			c.Count("with-runtime-error")
+		}
+		if tail && !o.n {
+			c.Count("with-input-error")
+		}
+		if o.e {
+			c.Count(fmt.Sprintf("exit-status-option:status=%d", status))
+		}
+		if o.r0 && bytes.Contains(out, []byte{0}) {
+			c.Count("raw0-output")
+		}
+	}
+	c.Count(fmt.Sprintf("status:%d", status))
+	for _, ec := range li.errCodes {
+		if ec != 5 {
+			c.Violation("runtime error with exit code %d (not 5): %s", ec, desc)
+		}
+	}
+}
+
+// the command of every case goes to <out>.cmds (one JSON per line, same order as the cases)
+var cmdsFile *os.File
+
+func cmdsLine(desc []byte) {
+	if cmdsFile == nil {
+		path := os.DevNull
+		for i, a := range os.Args {
+			if a == "-out" && i+1 < len(os.Args) {
+				path = os.Args[i+1] + ".cmds"
 			}
 		}
-		fmt.Println("--")
+		f, err := os.Create(path)
+		if err != nil {
+			panic(err)
+		}
+		cmdsFile = f
 	}
-	for _, args := range [][]string{{"-e", `if .==1 then error("x") else false end`}, {"-e", "halt"}, {"--indent", "10", "."}, {"-e", `if .==1 then error("x") else halt end`}, {`., halt_error(257)`},
-		{"--raw-output0", `., "a\u0000b", 3`}, {"-e", "--raw-output0", `1, "a\u0000b", 3`}, {"-s", "."}, {"-n", "."}, {"-e", ".["}, {"--foo"}, {"-e", "empty"}, {"error(null)"}, {"-j", `., "x"`}} {
-		var o, e bytes.Buffer
-		st := cli.VerifRun(args, strings.NewReader("1 2 {"), &o, &e)
-		fmt.Printf("%q => %d out=%q err=%q\n", args, st, o.String(), e.String())
+	cmdsFile.Write(append(desc, '\n'))
+}
+
+func prefixEach(xs []string) string {
+	var b strings.Builder
+	for _, x := range xs {
+		b.WriteByte(' ')
+		b.WriteString(x)
 	}
+	return b.String()
+}
+
+// ---------------------------------------------------------------------------------------------
+// generators
+
+var valueItems = []string{
+	`.`, `.`, `1`, `"a"`, `"a\u0000b"`, `"\u0000"`, `false`, `null`, `true`, `0`,
+	`[1,[2,{"a":"x,y:[]{}\"\\"}],[],{}]`, `{"a":[],"b":{"c":null,"d":[false]}}`, `"multi\nline"`, `"é☃𝄞"`,
+	`nan`, `1.5`, `(-0)`, `1e1000`, `[]`, `{}`, `empty`, `("/w=="|@base64d)`, `.[]?`, `.a?`, `"q\"uote\\"`,
+	`"\u007f\u001f"`, `""`, `[.]`, `{"k":.}`, `(try error("caught") catch .)`, `[nan]`, `100000000000000000000`,
+	`"tab\there"`, `[[[[[]]]]]`, `{"":{"":""}}`, `(.,.)`, `not`, `[null,false]`, `"false"`, `"null"`,
+}
+
+var errorItems = []string{
+	`error("x")`, `error`, `error(null)`, `error({"a":1})`, `(1|keys)`, `({}|.[0])`, `error("multi\nline")`,
+	`([]|implode|error)`, `(null|error("\u0000"))`, `("a"|tonumber)`,
+}
+
+var haltItems = []string{
+	`halt`, `halt_error`, `("bye"|halt_error)`, `("bye\n"|halt_error(1))`, `({"a":1}|halt_error(3))`, `(null|halt_error)`,
+	`halt_error(256)`, `halt_error(257)`, `halt_error(-1)`, `("x"|halt_error(0))`, `([1,{"a":[]}]|halt_error(1000))`,
+	`(nan|halt_error)`, `("a\u0000b"|halt_error(2))`, `(false|halt_error)`, `(""|halt_error(4))`, `halt_error(255)`,
+	`halt_error(1.9)`, `halt_error(-257)`, `(0|halt_error(5))`, `halt_error("notanumber")`,
+}
+
+var docPool = []string{
+	`0`, `1`, `2`, `false`, `null`, `true`, `"s"`, `"a\u0000b"`, `[1,2]`, `{"a":1}`, `[]`, `1.0`,
+	`100000000000000000000`, `{"a":{"b":[null]}}`, `""`, `[false]`,
+}
+
+var condPool = []string{
+	`. == 0`, `. == 1`, `. == 2`, `. == false`, `. == null`, `. == "s"`, `type == "number"`, `type == "array"`,
+	`type == "boolean"`, `type == "string"`, `type == "object"`, `. != 1`, `(type == "number" and . > 0)`, `length == 2`,
+}
+
+var badTails = []string{`{`, `tru`, `]`, `[1,`, `"abc`, `nul`, `}`, `{"a"`, `[1 2]`, `,`}
+
+var seps = []string{" ", "\n", "\n\n", "\t", " \n "}
+
+func genItem(r *Rng, depth int) string {
+	k := r.Intn(100)
+	switch {
+	case k < 50:
+		return valueItems[r.Intn(len(valueItems))]
+	case k < 62:
+		return errorItems[r.Intn(len(errorItems))]
+	case k < 74:
+		return haltItems[r.Intn(len(haltItems))]
+	default:
+		if depth > 1 {
+			return valueItems[r.Intn(len(valueItems))]
+		}
+		cond := condPool[r.Intn(len(condPool))]
+		a := genItem(r, depth+1)
+		b := "empty"
+		if r.Chance(1, 2) {
+			b = genItem(r, depth+1)
+		}
+		return fmt.Sprintf("(if %s then %s else %s end)", cond, a, b)
+	}
+}
+
+func genQuery(r *Rng) string {
+	n := 1 + r.Intn(4)
+	items := make([]string, n)
+	for i := range items {
+		items[i] = genItem(r, 0)
+	}
+	q := strings.Join(items, ", ")
+	if r.Chance(1, 12) {
+		q = " " + q + "\n"
+	}
+	return q
+}
+
+func genStream(r *Rng) string {
+	n := r.Intn(6)
+	var b strings.Builder
+	for i := 0; i < n; i++ {
+		if i > 0 {
+			b.WriteString(seps[r.Intn(len(seps))])
+		}
+		b.WriteString(docPool[r.Intn(len(docPool))])
+	}
+	if r.Chance(1, 4) {
+		if n > 0 {
+			b.WriteString(seps[r.Intn(len(seps))])
+		}
+		b.WriteString(badTails[r.Intn(len(badTails))])
+	} else if r.Chance(1, 2) {
+		b.WriteString("\n")
+	}
+	return b.String()
+}
+
+var indentPool = []int{0, 1, 2, 3, 4, 7, 8, 9}
+
+func optsOf(mask int, indent int) optset {
+	return optset{r: mask&1 != 0, r0: mask&2 != 0, j: mask&4 != 0, c: mask&8 != 0, tab: mask&16 != 0,
+		e: mask&32 != 0, n: mask&64 != 0, s: mask&128 != 0, indent: indent}
+}
+
+// queries / streams that every option combination is run on: the interactions named by the property
+var keyQueries = []string{
+	`.`,
+	`if . == 1 then error("x") else . end`,                       // error on one input, values (false/null) on others
+	`., "a\u0000b", 3`,                                             // NUL rejection under --raw-output0
+	`1, (if . == 2 then halt else empty end), "after"`,            // halt in the middle of the stream
+	`[1,{"a":"s"}], (if . == false then ("bye"|halt_error(257)) else "x" end)`,
+	`if . == null then empty else (., error) end`,                 // absent output, error carrying the value
+	`"s", false, (if . == 2 then null else empty end)`,            // last output falsy on one input only
+	`empty`,
+	`{"a":[1,{"b":"c"}],"d":{}} , (if . == 1 then ({"m":1}|halt_error) else empty end)`,
+}
+var keyStreams = []string{
+	"", "1 2 false null", "false 1", "2 1 {", "null", "1 false\n", `"a\u0000b" 2 tru`, "1 2",
+}
+
+var parseErrQueries = []string{`.[`, `1 +`, `if`, `}`, `. |`, `"abc`, `1 as`, `{a:}`}
+var compileErrQueries = []string{`nosuchfunc`, `$undefined`, `break $x`, `. as [$a] | $b`, `f(1)`, `include "nosuchmodule"; .`}
+var badFlagArgs = [][]string{{"--unknown"}, {"-q"}, {"--raw-output=1"}, {"-rq"}, {"--indent", "x"}, {"--exit-status=true"}, {"--tabs"}}
+
+func buildArgs(r *Rng, o optset, query string, extraFront []string) []string {
+	a := append([]string{}, extraFront...)
+	flags := o.args(r)
+	// flags may come before or after the query
+	if r.Chance(1, 4) {
+		a = append(a, query)
+		a = append(a, flags...)
+	} else {
+		a = append(a, flags...)
+		a = append(a, query)
+	}
+	return a
+}
+
+func runC15(c *Ctx) {
+	r := c.Rng
+	thorough := c.Tier == "thorough"
+	if len(c.Args) > 0 {
+		gojqBin = c.Args[0]
+	}
+	// 1. every combination of the 8 flags x key scenarios (indent rotates)
+	nks := 3
+	if thorough {
+		nks = len(keyStreams)
+	}
+	for mask := 0; mask < 256; mask++ {
+		for qi, q := range keyQueries {
+			for k := 0; k < nks; k++ {
+				si := (mask + qi*3 + k*5) % len(keyStreams)
+				if thorough {
+					si = k
+				}
+				indent := noIndent
+				if (mask+qi+k)%3 == 0 {
+					indent = indentPool[(mask+qi+k)/3%len(indentPool)]
+				}
+				o := optsOf(mask, indent)
+				emitCase(c, "raw", o, buildArgs(r, o, q, nil), q, keyStreams[si], "")
+			}
+		}
+	}
+	// 2. random queries x random streams x every combination of the flags
+	for i := 0; i < c.N; i++ {
+		mask := i % 256
+		indent := noIndent
+		if r.Chance(1, 3) {
+			indent = indentPool[r.Intn(len(indentPool))]
+		}
+		o := optsOf(mask, indent)
+		q := genQuery(r)
+		emitCase(c, "raw", o, buildArgs(r, o, q, nil), q, genStream(r), "")
+	}
+	// 2b. the same without -n / -s (several inputs), every combination of the other six flags
+	for i := 0; i < c.N/2; i++ {
+		mask := i % 64
+		indent := noIndent
+		if r.Chance(1, 3) {
+			indent = indentPool[r.Intn(len(indentPool))]
+		}
+		o := optsOf(mask, indent)
+		q := genQuery(r)
+		emitCase(c, "raw", o, buildArgs(r, o, q, nil), q, genStream(r), "")
+	}
+	// 3. usage / option / parse / compile errors under every combination of -e -n -s -r
+	nerr := 1
+	if thorough {
+		nerr = 4
+	}
+	for rep := 0; rep < nerr; rep++ {
+		for mask := 0; mask < 256; mask += 1 + r.Intn(6) {
+			o := optsOf(mask, noIndent)
+			st := genStream(r)
+			q := parseErrQueries[r.Intn(len(parseErrQueries))]
+			emitCase(c, "raw", o, buildArgs(r, o, q, nil), q, st, "")
+			q = compileErrQueries[r.Intn(len(compileErrQueries))]
+			emitCase(c, "raw", o, buildArgs(r, o, q, nil), q, st, "")
+			bf := badFlagArgs[r.Intn(len(badFlagArgs))]
+			q = genQuery(r)
+			emitCase(c, "raw", o, buildArgs(r, o, q, bf), q, st, "flagerr")
+			oo := o
+			oo.indent = []int{10, -1, 11, 100, -5}[r.Intn(5)]
+			emitCase(c, "raw", oo, buildArgs(r, oo, q, nil), q, st, "")
+			// --indent without its argument (last on the line)
+			emitCase(c, "raw", o, append(buildArgs(r, o, q, nil), "--indent"), q, st, "flagerr")
+		}
+	}
+	// 4. the real binary (thorough only): exit status as the parent process sees it
+	if gojqBin != "" {
+		n := c.N / 20
+		for i := 0; i < n; i++ {
+			mask := r.Intn(256)
+			indent := noIndent
+			if r.Chance(1, 3) {
+				indent = indentPool[r.Intn(len(indentPool))]
+			}
+			o := optsOf(mask, indent)
+			var q, st string
+			if i%3 == 0 {
+				q, st = keyQueries[r.Intn(len(keyQueries))], keyStreams[r.Intn(len(keyStreams))]
+			} else {
+				q, st = genQuery(r), genStream(r)
+			}
+			if i%5 == 0 {
+				q = q + ", " + haltItems[r.Intn(len(haltItems))]
+			}
+			emitCase(c, "os", o, buildArgs(r, o, q, nil), q, st, "")
+		}
+		for _, bf := range badFlagArgs {
+			o := optsOf(r.Intn(256), noIndent)
+			emitCase(c, "os", o, buildArgs(r, o, ".", bf), ".", "1", "flagerr")
+		}
+		for _, q := range parseErrQueries {
+			o := optsOf(r.Intn(256), noIndent)
+			emitCase(c, "os", o, buildArgs(r, o, q, nil), q, "1", "")
+		}
+	}
+}
+
+// replay: args = hex(JSON cmdDesc) ...
+func runC15Replay(c *Ctx) {
+	for _, a := range c.Args {
+		raw, err := hex.DecodeString(a)
+		if err != nil {
+			raw = []byte(a)
+		}
+		var d cmdDesc
+		if err := json.Unmarshal(raw, &d); err != nil {
+			c.Violation("bad replay descriptor: %v", err)
+			continue
+		}
+		if strings.HasPrefix(d.Mode, "os:") {
+			gojqBin = d.Mode[3:]
+			d.Mode = "os"
+		}
+		o, q, ok := parseArgsBack(d.Args)
+		if !ok && d.Pre == "" {
+			c.Violation("replay: cannot recover the option set from %q", d.Args)
+			continue
+		}
+		emitCase(c, d.Mode, o, d.Args, q, d.Stdin, d.Pre)
+	}
+}
+
+// parseArgsBack recovers the option set and the query from an argument vector built by optset.args
+func parseArgsBack(args []string) (o optset, query string, ok bool) {
+	o.indent = noIndent
+	ok = true
+	haveQ := false
+	for i := 0; i < len(args); i++ {
+		a := args[i]
+		switch {
+		case a == "--raw-output":
+			o.r = true
+		case a == "--raw-output0":
+			o.r0 = true
+		case a == "--join-output":
+			o.j = true
+		case a == "--compact-output":
+			o.c = true
+		case a == "--tab":
+			o.tab = true
+		case a == "--exit-status":
+			o.e = true
+		case a == "--null-input":
+			o.n = true
+		case a == "--slurp":
+			o.s = true
+		case a == "--indent":
+			if i+1 < len(args) {
+				if n, err := strconv.Atoi(args[i+1]); err == nil {
+					o.indent = n
+					i++
+					continue
+				}
+			}
+			ok = false
+		case strings.HasPrefix(a, "--indent="):
+			n, err := strconv.Atoi(a[len("--indent="):])
+			if err != nil {
+				ok = false
+			}
+			o.indent = n
+		case strings.HasPrefix(a, "--"):
+			ok = false
+		case len(a) > 1 && a[0] == '-' && strings.Trim(a[1:], "rjcens") == "":
+			for _, ch := range a[1:] {
+				switch ch {
+				case 'r':
+					o.r = true
+				case 'j':
+					o.j = true
+				case 'c':
+					o.c = true
+				case 'e':
+					o.e = true
+				case 'n':
+					o.n = true
+				case 's':
+					o.s = true
+				}
+			}
+		default:
+			if haveQ {
+				ok = false
+			}
+			query, haveQ = a, true
+		}
+	}
+	if !haveQ {
+		query = "."
+	}
+	return
 }
